@@ -6,7 +6,9 @@ CONSTANTS
   FileNames <- Files3
   MaxPerFile <- MaxDiamond
   SkipForms <- SkipFalse
-  Locations <- Locs
+  RegLogs <- RegLogs1
+  EntryForms <- Entries
+  EntryBinding <- EntryB
   Readers <- Rdrs
   PresentChoices <- Presents1
 CONSTRAINT ExportAll
